@@ -786,7 +786,24 @@ func (e *Engine) typeTag(t types.Type) int {
 }
 
 func (e *Engine) execTypeAssert(st *State, fr *Frame, x *ssa.TypeAssert) Val {
-	panic(unsupported("type assertion"))
+	v, ok := e.val(st, fr, x.X).(VIface)
+	if !ok {
+		panic(unsupported("type assertion on " + x.X.Type().String()))
+	}
+	if _, isIface := under(x.AssertedType).(*types.Interface); isIface {
+		panic(unsupported("type assertion to an interface type"))
+	}
+	ls := leavesOf(x.AssertedType)
+	if len(ls) != 1 || ls[0].sort != IntS {
+		panic(unsupported("type assertion to a type that is not a single scalar: " + x.AssertedType.String()))
+	}
+	match := Eq(v.Tag, Num(int64(e.typeTag(x.AssertedType))))
+	payload, _ := Unflatten(x.AssertedType, []*Term{Ite(match, v.Data, Zero)})
+	if x.CommaOk {
+		return VTuple{[]Val{payload, VBool{match}}}
+	}
+	e.oblige(st, "assert@TypeAssert", "", e.ordinal(x), match, "dynamic type matches the asserted type", x.Pos())
+	return payload
 }
 
 func (e *Engine) execIndexAddr(st *State, fr *Frame, x *ssa.IndexAddr) Val {
